@@ -22,7 +22,7 @@ ASSUMPTIONS = [
 ]
 MONITORS = "TransferResult vs os.walk listings of the destination before/after, per-oid upload log, source byte snapshot and audit-hook mutation log on the source"
 REQUIRED_COUNTERS = [
-    "corrupt_parseable_dir_objects", "rounds_with_index", "rounds_dest_with_state", "rounds", "rounds_with_failures", "rounds_with_preexisting", "rounds_missing_both_sides", "rounds_verify_corrupt_source",
+    "rounds_source_vanishes", "corrupt_parseable_dir_objects", "rounds_with_index", "rounds_dest_with_state", "rounds", "rounds_with_failures", "rounds_with_preexisting", "rounds_missing_both_sides", "rounds_verify_corrupt_source",
     "transferred_objects_checked", "source_snapshots_compared", "rounds_expanded", "rounds_local_dest", "rounds_remote_dest",
 ]
 
@@ -216,8 +216,31 @@ def run_shard(ctx):
                 info = {"variant": variant, "dest": dest_kind, "expanded": expanded, "failing": sorted(S), "preexisting": sorted(pre),
                         "missing_both": sorted(missing_both), "corrupt": sorted(corrupt), "verify": verify, "jobs": jobs,
                         "trees": [{"oid": t["oid"], "listing": t["listing"]} for t in sc.trees]}
+                vanished = set()
+                vs_hook = None
+                if variant == "plain" and not S and new and rng.random() < 0.5:
+                    # some source objects are removed by someone else right after the status query
+                    res.count("rounds_source_vanishes")
+                    cand = sorted(o for o in new if not o.endswith(".dir"))
+                    vanished = {o for o in cand if rng.random() < 0.4} or set(cand[:1])
+
+                    def vs_hook(_st, vanished=vanished):
+                        for o in vanished:
+                            pth = sc.src_path(o)
+                            if os.path.exists(pth):
+                                os.chmod(pth, 0o644)
+                                os.unlink(pth)
                 with Recorder([sc.src_root]) as rec, UploadFaults(sc, S) as uf:
-                    r = transfer(src, sc.dest, ids, jobs=jobs, shallow=shallow, verify=verify, cache_odb=src)
+                    r = transfer(src, sc.dest, ids, jobs=jobs, shallow=shallow, verify=verify, cache_odb=src, validate_status=vs_hook)
+                if vanished:
+                    info["vanished_from_source"] = sorted(vanished)
+                    rec.events[:] = []
+                    for o in vanished:  # restore for the following rounds
+                        pth = sc.src_path(o)
+                        os.makedirs(os.path.dirname(pth), exist_ok=True)
+                        with open(pth, "wb") as f:
+                            f.write(src_before[o])
+                        os.chmod(pth, 0o444)
                 after = dest_objects(sc)
                 T = {h.value for h in r.transferred}
                 F = {h.value for h in r.failed}
